@@ -113,6 +113,9 @@ def gen_struct_case(g, cid, opts=None):
     elif cell == "unit->unit":
         sc.hint = r.choice([None, "Unit"])
     sc.existing_only = opts.get("existing_only", False) or (t_named and s_shape == "named" and g.chance(0.15))
+    if cell in ("unit->named", "unit->tuple") and not opts.get("existing_only", False) and g.chance(0.35):
+        # without a hint only From and IntoExisting can be requested (Into could not know the counterpart's form): the struct-level ghosts still have to be written
+        sc.existing_only, sc.hint = True, None
     sc.flags = set()
     # ---- fields
     nf = 0 if s_shape == "unit" else r.randint(1, opts.get("max_fields", 7))
